@@ -111,8 +111,10 @@ def family(n: int = 3, *, ntypes: int = 1, maxpars=(UNL,), maxws=(2,), backends=
                         for c0 in cached_sets:
                             for bust in busts:
                                 clo = sorted(closure(deps, req, c0, bust))
-                                # a task that is cached beforehand has run successfully: it cannot be one that raises
-                                can_fail = [t for t in clo if t not in c0]
+                                # a task that is cached beforehand has run successfully, and so have all the tasks nested in its
+                                # parameters (a failing variant is a different parameter value, hence a different task)
+                                under_cached = closure(deps, c0)
+                                can_fail = [t for t in clo if t not in under_cached]
                                 if fails == 'none':
                                     fail_sets = [[]]
                                 elif fails == 'singles':
